@@ -43,6 +43,12 @@ pub fn features() -> Vec<(&'static str, Ctor)> {
                 )
             },
         ),
+        // the loop is the value of the function: its last body statement is an assignment to a local
+        (
+            "loop-value",
+            |h| call(func("", &[], vec![let_("k", int(0)), let_("t", int(0)), es(whil(infix(id("k"), Operator::Lt, int(2)), vec![es(op_assign("k", Operator::Add, int(1))), es(assign(id("t"), h))]))]), vec![]),
+        ),
+        ("empty-function", |h| array(vec![call(func("", &["q"], vec![]), vec![h]), int(1)])),
         ("loop-cond", |h| call(func("", &[], vec![let_("k", int(0)), es(whil(h, vec![es(op_assign("k", Operator::Add, int(1))), Stmt::Break])), es(id("k"))]), vec![])),
         ("function-body", |h| call(func("", &[], vec![es(h)]), vec![])),
         ("return", |h| call(func("", &[], vec![Stmt::Return(h), es(int(0))]), vec![])),
